@@ -99,7 +99,7 @@ def search_cover(ctx):
     return _emit(d)
 
 
-@rule("LINE-SEEK", ["C12", "C01", "C02", "C04", "C08"], floor=4)
+@rule("LINE-SEEK", ["C12", "C01", "C02", "C04", "C08", "C20"], floor=4)
 def line_seek(ctx):
     """Multi-line '^' fast path: after trying the given start, every position following a U+000A (searched forward
     from the previous line start, not beyond) and lying before the end of input is tried, in order."""
@@ -216,7 +216,7 @@ def match_at(ctx):
 # ------------------------------------------------------------------ iterator exhaustion / order
 
 
-@rule("EXH-CHOICE", ["C01", "C02", "C03", "C19"], floor=5)
+@rule("EXH-CHOICE", ["C01", "C02", "C03", "C19", "C15", "C04"], floor=5)
 def exh_choice(ctx):
     """ChoiceIterator: results are those of the current branch iterator; exhaustion is reported only after
     branches_iter is exhausted; branches are taken in source order; before a branch is entered the groups beyond
